@@ -13,6 +13,9 @@ r = sh(["git", "-C", "/repo", "apply", patch])
 if r.returncode != 0:
     print("patch does not apply:", r.stdout); sys.exit(2)
 res = {}
+# the evidence files describe the unchanged tree: keep them aside while the seeded change is in place
+subprocess.run(["rm", "-rf", "/verif/evidence.keep"], check=False)
+subprocess.run(["cp", "-r", "/verif/evidence", "/verif/evidence.keep"], check=False)
 try:
     for p in props:
         t0 = time.time()
@@ -22,6 +25,9 @@ try:
         print(p, r.returncode, (viol[0] if viol else ""), f"{res[p]['s']}s", flush=True)
 finally:
     sh(["git", "-C", "/repo", "checkout", "--", "."])
+    if os.path.isdir("/verif/evidence.keep"):
+        subprocess.run(["rm", "-rf", "/verif/evidence"], check=False)
+        os.rename("/verif/evidence.keep", "/verif/evidence")
     sh(["cargo", "build", "--offline", "--bins"], cwd="/verif/harness")
     subprocess.run(["rm", "-rf", "/verif/replays.seedtest"], check=False)
     if os.path.isdir("/verif/replays"):
